@@ -637,3 +637,6 @@ package eval
 //@   props C17
 //@   pure
 //@   ensures (i < 0 || i >= len(fm.ports)) ==> result == nil
+//@ func Frame.ByteOutput
+//@   trusted
+//@   pure
